@@ -52,7 +52,12 @@ template <int S> struct Runner {
     {
       if (reused.isInitialized()) for (int k = 0; k < M; ++k) (void)reused.getTrajectory().evaluate(reused.getStartTime(), k);
       // first the same problem at another start time (same N: nothing is resized), evaluated, then the real one
-      { reused.update(q.T, q.P, q.t0 + 3.25, q.bc); (void)reused.getTrajectory().evaluate(reused.getStartTime(), 1); }
+      { const double sh = toggle ? 3.25 : -1024.5; reused.update(q.T, q.P, q.t0 + sh, q.bc); ++c.st.comparisons;
+        // the intermediate state is checked too (otherwise a stale time grid can be right again by luck after the second update)
+        bool oks = reused.getStartTime() == q.t0 + sh && reused.getTrajectory().getStartTime() == q.t0 + sh && (int)reused.getCumulativeTimes().size() == N + 1 && reused.getTrajectory().getBreakpoints() == reused.getCumulativeTimes();
+        if (oks) { double t = q.t0 + sh; for (int i = 0; i <= N && oks; ++i) { oks = reused.getCumulativeTimes()[i] == t; if (i < N) t += q.T[i]; } }
+        if (!oks) fail("route-reused-object", p, fmt("update() of a used object to start time %.17g: knot times are not start + durations", q.t0 + sh));
+        (void)reused.getTrajectory().evaluate(reused.getStartTime(), 1); }
       if (toggle) reused.update(q.T, q.P, q.t0, q.bc); else reused.update(tp, q.P, q.bc);
       toggle = !toggle;
       ++c.st.comparisons;
